@@ -307,6 +307,26 @@ func c04Scope(p *Prog) []*ssa.Function {
 			}
 		}
 	}
+	// what those functions call elsewhere in the module runs on the sample path too (the common metric sampler of
+	// package core is the first thing every OnSample calls)
+	in := map[*ssa.Function]bool{}
+	for _, f := range out {
+		in[f] = true
+	}
+	for i := 0; i < len(out); i++ {
+		allInstrs(out[i], func(ins ssa.Instruction) {
+			c := p.CallOf(ins)
+			if c == nil || c.Static == nil || c.Static.Blocks == nil || in[c.Static] || !p.InModule(c.Static) {
+				return
+			}
+			switch p.PkgOf(c.Static) {
+			case "limit", "limit/functions", "measurements":
+				return // selected above (or deliberately left out: constructors)
+			}
+			in[c.Static] = true
+			out = append(out, c.Static)
+		})
+	}
 	sort.Slice(out, func(i, j int) bool { return p.Key(out[i]) < p.Key(out[j]) })
 	return out
 }
